@@ -15,6 +15,9 @@ use std::collections::HashMap;
 #[derive(Clone, Debug, PartialEq)] pub struct AuthorshipMetadata { pub prompts: std::collections::BTreeMap<String, crate::PromptRecord> }
 #[derive(Clone, Debug, PartialEq)] pub struct AgentId { pub tool: String, pub id: String, pub model: String }
 #[derive(Clone, Debug, PartialEq)] pub struct PromptRecord { pub agent_id: AgentId, pub messages: Vec<authorship::transcript::Message>, pub total_additions: u32, pub total_deletions: u32, pub accepted_lines: u32, pub overriden_lines: u32 }
+/// stand-in for the crate's ignore matcher (globset based): a list of path suffixes, `*.lock` ~ ".lock"
+pub struct IgnoreMatcher(pub Vec<String>);
+fn should_ignore_file_with_matcher(path: &str, m: &IgnoreMatcher) -> bool { m.0.iter().any(|suf| path.ends_with(suf.as_str())) }
 fn calculate_waiting_time(_t: &authorship::transcript::AiTranscript) -> u64 { 0 }
 macro_rules! derive_default_shim { () => {} }
 include!("@ITEMS@");
@@ -133,6 +136,40 @@ fn gen_accepted(g: &mut Rng, c: &mut Ctx) {
     for h in hashes { if g.below(8) != 0 { prompts.push((h.to_string(), if g.below(2) == 0 { "cursor" } else { "claude" }.to_string(), if g.below(2) == 0 { "m1" } else { "m2" }.to_string())); } }
     chk_accepted(c, g.below(10) == 0, &added, &note, &prompts);
 }
+// numstat totals.  input: N;suffix,suffix;line|line|..   (a tab is written \t)
+fn chk_numstat(c: &mut Ctx, suffixes: &[String], lines: &[String]) {
+    c.evaluated += 1;
+    let input = format!("N;{};{}", suffixes.join(","), lines.iter().map(|l| l.replace('\t', "\\t")).collect::<Vec<_>>().join("|"));
+    let stdout = lines.iter().map(|l| format!("{}\n", l)).collect::<String>();
+    // oracle: git's numstat records `added<TAB>deleted<TAB>path` (path = everything after the second tab), minus ignored paths; `-` counts 0
+    let (mut wa, mut wd) = (0u64, 0u64);
+    for l in lines {
+        let f: Vec<&str> = l.splitn(3, '\t').collect();
+        if f.len() < 3 { continue; }
+        let num = |x: &str| if x == "-" { Some(0u64) } else if !x.is_empty() && x.bytes().all(|b| b.is_ascii_digit()) { x.parse::<u64>().ok() } else { None };
+        let (Some(a), Some(d)) = (num(f[0]), num(f[1])) else { continue; };
+        if suffixes.iter().any(|s| f[2].ends_with(s.as_str())) { continue; }
+        wa += a; wd += d;
+    }
+    match guarded(|| region_numstat_sum(&stdout, IgnoreMatcher(suffixes.to_vec()), 0, 0)) {
+        Ok((a, d)) => if (a as u64, d as u64) != (wa, wd) { c.fail("region_numstat_sum", "ensures", input, format!("added={} deleted={}", a, d), format!("added={} deleted={} (numstat records minus ignored files)", wa, wd)); },
+        Err(p) => c.fail("region_numstat_sum", "safety", input, p, "no panic".into()),
+    }
+}
+fn gen_numstat(g: &mut Rng, c: &mut Ctx) {
+    let paths = ["a.rs", "dir/b.lock", "third party/deps.lock", "release notes.lock", "notes v2.txt", "x y/z.rs", "Cargo.lock", "lock.rs"];
+    let nums = ["0", "1", "7", "42", "-"];
+    let mut lines: Vec<String> = vec![];
+    for _ in 0..g.below(6) {
+        match g.below(8) {
+            0 => lines.push(String::new()),
+            1 => lines.push("   ".into()),
+            _ => { let a = nums[g.below(5) as usize]; let d = if a == "-" { "-" } else { nums[g.below(4) as usize] }; lines.push(format!("{}\t{}\t{}", a, d, paths[g.below(8) as usize])); }
+        }
+    }
+    let suffixes: Vec<String> = if g.below(4) == 0 { vec![] } else { vec![".lock".to_string()] };
+    chk_numstat(c, &suffixes, &lines);
+}
 fn main() {
     std::panic::set_hook(Box::new(|_| {}));
     let a: Vec<String> = std::env::args().collect();
@@ -156,6 +193,7 @@ fn main() {
             let by_v: Vec<(String, u32)> = by.into_iter().collect();
             chk(&mut c, added, g.below(5) as u32, &prompts, &by_v);
             gen_accepted(&mut g, &mut c);
+            gen_numstat(&mut g, &mut c);
         }
     } else {
         let p: Vec<&str> = a[3].split(';').collect();
@@ -164,6 +202,14 @@ fn main() {
             let note: NoteSpec = p[3].split('|').filter(|t| !t.is_empty()).map(|t| { let i = t.find('>').unwrap(); (t[..i].to_string(), t[i + 1..].split('/').filter(|e| !e.is_empty()).map(|e| { let j = e.find(':').unwrap(); (e[..j].to_string(), e[j + 1..].split(',').filter(|r| !r.is_empty()).map(|r| if let Some(x) = r.strip_prefix('S') { (x.parse().unwrap(), None) } else { let q: Vec<&str> = r[1..].split('-').collect(); (q[0].parse().unwrap(), Some(q[1].parse().unwrap())) }).collect()) }).collect()) }).collect();
             let prompts: Vec<(String, String, String)> = p.get(4).unwrap_or(&"").split_whitespace().map(|t| { let i = t.find('=').unwrap(); let q: Vec<&str> = t[i + 1..].split(':').collect(); (t[..i].to_string(), q[0].to_string(), q[1].to_string()) }).collect();
             chk_accepted(&mut c, p[1] == "1", &added, &note, &prompts);
+            println!("DONE evaluated={}", c.evaluated);
+            return;
+        }
+        if p[0] == "N" {
+            let suffixes: Vec<String> = p[1].split(',').filter(|x| !x.is_empty()).map(|x| x.to_string()).collect();
+            let rest = a[3].splitn(3, ';').nth(2).unwrap_or("");
+            let lines: Vec<String> = if rest.is_empty() { vec![] } else { rest.split('|').map(|l| l.replace("\\t", "\t")).collect() };
+            chk_numstat(&mut c, &suffixes, &lines);
             println!("DONE evaluated={}", c.evaluated);
             return;
         }
